@@ -206,13 +206,40 @@ pub fn oracle_c01(c: &Case) -> Outcome {
     mark_private_perm(c, oracle_c01_inner(c))
 }
 
-/// failures of cases that opt into a private (additively shared) permutation operand carry the
-/// signature of known finding F-C01-1
+/// failures of cases whose source graph applies a private (additively shared) permutation carry
+/// the signature of known finding F-C01-1. The generators never build such a graph (permutation
+/// operands are public unless the pinned case asks otherwise); the structural test keeps the
+/// finding identified by its call site rather than by the route that produced the graph
 fn mark_private_perm(c: &Case, mut o: Outcome) -> Outcome {
-    if o.is_fail() && c.private_perm && c.recipe.steps.iter().any(|s| s.k == K::ApplyPerm) {
+    if o.is_fail() && applies_private_permutation(c) {
         o.sig = "apply-perm-additively-shared-permutation".to_string();
     }
     o
+}
+
+fn applies_private_permutation(c: &Case) -> bool {
+    use ciphercore_base::graphs::Operation;
+    let built = match build(&c.recipe, 64) {
+        Some(b) => b,
+        None => return false,
+    };
+    let mut private: std::collections::HashSet<u64> = std::collections::HashSet::new();
+    for (i, (n, _, kind)) in built.inputs.iter().enumerate() {
+        let owner = if *kind == InKind::Perm && !c.private_perm { 3 } else { owner_of(&c.cfg, i) };
+        if owner != 3 {
+            private.insert(n.get_id());
+        }
+    }
+    for n in built.main.get_nodes() {
+        let deps = n.get_node_dependencies();
+        if matches!(n.get_operation(), Operation::Random(_) | Operation::RandomPermutation(_)) || deps.iter().any(|d| private.contains(&d.get_id())) {
+            private.insert(n.get_id());
+        }
+        if matches!(n.get_operation(), Operation::ApplyPermutation(_)) && private.contains(&deps[1].get_id()) {
+            return true;
+        }
+    }
+    false
 }
 
 pub fn pinned_private_perm() -> Case {
